@@ -41,11 +41,11 @@ CHECKS.update({
    text="from_float is from_man_exp of the frexp parts (exact by the from_man_exp theorem); to_float is normalize1 to 53 bits (correct rounding theorem) followed by an exact ldexp in the normal range. The model is tied by correspondence over all exponent fields, subnormals, binade edges and halfway points. Theorems in Props/C09.v hold for every frexp mantissa/exponent pair and every regular mpf.",
    note=TB_A + " math.frexp/ldexp trusted."),
  "C14": dict(level="proof", engine="A", technique="Coq/Flocq theorems (Props/C14.v): containment for mpi add/sub/neg/pos on all member reals; Gallina model of libmpi (add/sub/mul/div/neg/abs/square/sqrt/pow_int) in correspondence; containment decided exactly at sampled member points; iv conversions and operators at API level",
-   text="Interval arithmetic is transliterated branch for branch (all sign cases, zero and infinite endpoints); floor/ceiling endpoint roundings are instances of the normalize theorems; the model is tied by correspondence and containment of exact results is decided exactly for member points of every generated interval, including endpoints longer than the precision and string/number conversions. Theorems in Props/C14.v: for finite canonical endpoints and every pair of member reals, x+y, x-y, -x and +x lie in the computed interval.",
-   note=TB_A + " mul/div/square/abs/sqrt/pow containment by correspondence + exact oracle (no theorem yet);" + " exp/log/sin/cos/tan/atan2/x**y and gamma family on intervals are not decided here."),
- "C15": dict(level="proof", engine="A", technique="Gallina model of mpci add/sub/mul/div/square/pow_int in correspondence; containment decided exactly at 16x9 member points per case",
-   text="Complex interval arithmetic is a composition of the real interval model; tied by correspondence; containment of exact complex results decided exactly at member points of the rectangles.",
-   note=TB_Z + " abs/exp/log/cos/sin/gamma on rectangles not decided here."),
+   text="Interval arithmetic is transliterated branch for branch (all sign cases, zero and infinite endpoints); floor/ceiling endpoint roundings are instances of the normalize theorems; the model is tied by correspondence and containment of exact results is decided exactly for member points of every generated interval, including endpoints longer than the precision and string/number conversions. Theorems in Props/C14.v: for finite canonical endpoints of any length and every pair of member reals, x+y, x-y, -x, +x, x*y (all nine sign cases incl. the min/max of exact corner products), x*x, |x|, x/y (denominator interval not containing 0) and sqrt x lie in the computed interval, which is again a valid interval. Elementary functions on intervals are decided per sampled interval by universally quantified Coq Interval certificates (props/c14e.py, exploration level for that part).",
+   note=TB_A + " Infinite endpoints, division by intervals containing zero and integer powers: correspondence + exact oracle (no theorem). Elementary part: Coq Interval certificates per instance (" + "Interval/Coquelicot axioms as for engine B). Gamma family on intervals not decided."),
+ "C15": dict(level="proof", engine="A", technique="Coq/Flocq theorems (Props/C15.v): mpci add/sub/neg/pos/mul/square contain every exact complex result for all member points; Gallina model of mpci add/sub/mul/div/square/pow_int in correspondence; containment decided exactly at 16x9 member points per case; point-wise Interval certificates for abs/exp/log/cos/sin on rectangles",
+   text="Complex interval arithmetic is a composition of the real interval model: theorems in Props/C15.v prove, for finite rectangles, every precision and every member point a+bi, c+di, that the sum, difference, negation, product (ac-bd, ad+bc) and square lie in the computed rectangle (compositions of the C14 containment theorems with exact inner products). The model is tied by correspondence; division and powers are decided exactly at member points; abs/exp/log/cos/sin on rectangles are decided point-wise by Coq Interval certificates (a necessary condition only; exploration level for that part).",
+   note=TB_A + " Division, integer powers: correspondence + exact oracle (no theorem). Elementary part: per-point Interval certificates. Gamma family on rectangles not decided."),
  "C16": dict(level="proof", engine="A", technique="Coq theorems (Props/C16.v): three-valued interval comparisons are exactly the for-all / for-none statements over member reals; Gallina model of mpi_lt/le/gt/ge/eq in correspondence; three-valued semantics decided exactly from endpoints",
    text="The three-valued comparison functions are transliterated; since an interval relation holds for all/no member pairs iff it holds for the corresponding endpoints, each case is decided exactly; `in`, == and != at API level on touching, nested, infinite and point intervals. Theorems in Props/C16.v prove for finite endpoints that True means the relation holds for every pair of members, False for none, None otherwise.",
    note=TB_A),
@@ -142,6 +142,15 @@ CHECKS.update({
  "C24": dict(level="proof", engine="A", technique="Coq termination theorems for the anchored loop patterns (series loop with divergence/threshold stop, precision-doubling retry, giant_steps) for every sequence of computed terms; watchdog sweep over public functions with solo re-run of slow calls",
    text="The stop conditions of the asymptotic-series loops (mpf_psi0 and, since the fix, mpc_psi0), of the hypsum/hypercomb precision-doubling retry and of giant_steps are proved to fire after an explicitly bounded number of iterations whatever the terms are. All registered public functions plus a directed family aimed at those loops are run under a watchdog at precisions 10..200 (to 3000 in the thorough tier); a call still running after a generous limit alone in a fresh process is reported with its arguments. This found (and the repo now fixes) a non-terminating loop in mpc_psi0.",
    note=TB_Z + " Termination of loops outside the three proved patterns is observed by the sweep, not proved; primezeta near its natural boundary is excluded."),
+})
+
+CHECKS.update({
+ "C17": dict(level="proof", engine="A", technique="Gallina model of constant_memo/def_mpf_constant (coq_const) with induction over all request histories; live fixed-point tables checked by vm_compute against one Interval-proved enclosure per constant; finite-domain theorem instantiated from the live tables on each run; memo-trace and public-API correspondence",
+   text="For pi, e, ln2, ln10, phi and degree: every public precision 1..P (P = 637 quick / 4447 thorough), all five rounding modes and every history of memo requests within the model return the Flocq rounding of the real constant (const_all_histories + per-run X_correct theorems; the real constants are Coquelicot/Interval definitions enclosed by the interval tactic). The model of the memo (growth rule int(q*1.05+10), served shifts) is compared with the live closure on request traces, and the public constants are compared at every p x 5 modes. The other seven constants (euler, catalan, khinchin, glaisher, apery, mertens, twinprime) are only shown history-consistent within one unit of the table and observed within 1 ulp.",
+   note=TB_A + " Additional for coq_const: Coq Interval (Uint63/PrimInt63 primitive axioms of its bignum back-end) for the six enclosures; harness/props/c17.py reads the live memo tables by closure introspection; domain is finite (stated above)."),
+ "C29": dict(level="exploration", engine="B", technique="per-call Coq certificates: exact-Z lemmas with Coq-side Horner evaluation by vm_compute for planted polynomial roots/residuals/ordering, Interval tactic for elementary f; regimes cover every solver, bracketing, multiplicities, polyroots clusters",
+   text="Nothing universal is proved: each sampled findroot/polyroots/multiplicity call is judged against an exact planted problem and every verdict (pass or fail) is re-proved by Coq as a closed arithmetic lemma, so the oracle is machine checked per instance. Failures that match the recorded defects (MNewton near multiple roots, polyroots ordering on equal |Im| clusters and repeated real roots) are printed as known findings; anything else is a violation with a replay.",
+   note=TB_B),
 })
 
 NOT_APPLICABLE = {
